@@ -56,6 +56,7 @@ fn main() {
             Some("handshake") => (Phase::Handshake, "C07"),
             Some("weakstats") => (Phase::WeakStats, "C17"),
             Some("reloadearly") => (Phase::ReloadEarly, "C19"),
+            Some("reloadoutage") => (Phase::ReloadOutage, "C19"),
             Some("recovery") => (Phase::Recovery, "C08"),
             Some("recovery4") => (Phase::RecoveryEligibility, "C04"),
             _ => (Phase::Subscription, "C20"),
